@@ -425,3 +425,54 @@ func init() {
 		c.Check(n >= 1, "light/rpc :: uses of Update's result found", "-", ">= 1", fmt.Sprintf("%d", n))
 	})
 }
+
+// ------------------------------------------------------------------ C20.R10
+// F31: an answer that is consistent with *a* verified header is not yet the answer to the question asked.
+// Every verifying method that takes a height or a hash compares it with the answer's own, and the block id
+// is compared in full (the verified commit signs the part-set header as well).
+func init() {
+	register("C20", "R10", "K1", "each verified answer is bound to the request (height / hash asked for) and to the full verified block id", 7, func(c *Ctx) {
+		w := c.W
+		type ob struct {
+			fn string
+			g  Guard
+		}
+		res := func(m string) string { return `c\.next\.` + m + `\(ctx, [^#]*\)#0` }
+		obs := []ob{
+			{"Client.Block", guardAny("the block is for the requested height (when one was given)", guardRe("n", `^nil\(height\)$`), guardCmp("h", res("Block")+`\.Block\.Header\.Height`, "==", "height"))},
+			{"Client.BlockByHash", guardRe("the block is the one with the requested hash", `^true\(bytes\.Equal\(`+res("BlockByHash")+`\.BlockID\.Hash, hash\)\)$`)},
+			{"Client.Block", guardRe("part-set header equals the verified commit's", `^true\(`+res("Block")+`\.BlockID\.PartSetHeader\.Equals\(c\.updateLightClientIfNeededTo\(.*\)#0\.SignedHeader\.Commit\.BlockID\.PartSetHeader\)\)$`)},
+			{"Client.BlockByHash", guardRe("part-set header equals the verified commit's", `^true\(`+res("BlockByHash")+`\.BlockID\.PartSetHeader\.Equals\(c\.updateLightClientIfNeededTo\(.*\)#0\.SignedHeader\.Commit\.BlockID\.PartSetHeader\)\)$`)},
+			{"Client.BlockResults", guardCmp("the results are for the height asked of the node", `c\.next\.BlockResults\(ctx, .*\)#0\.Height`, "==", `&?\w+|c\.\w+\(ctx, height\)#0`)},
+			{"Client.ConsensusParams", guardAny("the parameters are for the requested height (when one was given)", guardRe("n", `^nil\(height\)$`), guardCmp("h", res("ConsensusParams")+`\.BlockHeight`, "==", "height"))},
+		}
+		for _, o := range obs {
+			f := c.fn("light/rpc", o.fn)
+			if f == nil {
+				continue
+			}
+			c.Check(c.ge().ensures(f, o.g, 2), "light/rpc."+o.fn+" ensures "+o.g.Name, w.pos(f.Pos()), "success only behind it", o.fn+" can relay an answer without: "+o.g.Name)
+		}
+		// Tx: only the proving branch verifies anything; there the proven hash must be the requested one
+		if f := c.fn("light/rpc", "Client.Tx"); f != nil {
+			g := guardAny("the proven transaction is the requested one (when a proof was requested)",
+				guardRe("h", `^true\(bytes\.Equal\(`+res("Tx")+`\.Hash, hash\)\)$`),
+				guardRe("np", `^false\(prove\)$`),
+				guardRe("err", `^nonnil\(c\.next\.Tx\([^#]*\)#1\)$`))
+			ok := true
+			for _, r := range returnsOf(f) {
+				ret := r.(*ssa.Return)
+				if !isNilConst(ret.Results[1]) && !strings.Contains(w.expr(ret.Results[1]), "c.next.Tx(") {
+					continue
+				}
+				if isNilConst(ret.Results[0]) {
+					continue
+				}
+				if okr, _ := c.ge().guardedLocal(f, ret, g, 0); !okr {
+					ok = false
+				}
+			}
+			c.Check(ok, "light/rpc.Client.Tx ensures "+g.Name, w.pos(f.Pos()), "success only behind it", "Tx can relay a proven transaction other than the one asked for")
+		}
+	})
+}
